@@ -27,6 +27,9 @@ type Term struct {
 type termBuilder struct {
 	memo  map[ssa.Value]*Term
 	stack map[ssa.Value]bool
+	// keepConv keeps integer conversions that change signedness or narrow
+	// the value as explicit "conv" nodes (E9 must not see through them)
+	keepConv bool
 }
 
 func newTB() *termBuilder {
@@ -153,6 +156,11 @@ func (b *termBuilder) build(v ssa.Value, d int) *Term {
 		}
 		return t
 	case *ssa.Convert:
+		if b.keepConv {
+			if k := convKind(x.X.Type(), x.Type()); k != "" {
+				return &Term{Op: "conv", Sym: k, Args: []*Term{b.of(x.X, d+1)}}
+			}
+		}
 		return b.of(x.X, d)
 	case *ssa.ChangeType:
 		return b.of(x.X, d)
@@ -214,6 +222,49 @@ func (b *termBuilder) build(v ssa.Value, d int) *Term {
 		return &Term{Op: "func", Sym: "builtin:" + x.Name()}
 	}
 	return &Term{Op: "other", Sym: fmt.Sprintf("%T", v)}
+}
+
+// convKind classifies an integer conversion: "" when value-preserving for all
+// inputs on a 64-bit target, otherwise "from→to".
+func convKind(from, to types.Type) string {
+	fb, ok1 := from.Underlying().(*types.Basic)
+	tb, ok2 := to.Underlying().(*types.Basic)
+	if !ok1 || !ok2 || fb.Info()&types.IsInteger == 0 || tb.Info()&types.IsInteger == 0 {
+		if ok1 && ok2 && fb.Info()&types.IsFloat != 0 && tb.Info()&types.IsInteger != 0 {
+			return fb.Name() + "→" + tb.Name()
+		}
+		return ""
+	}
+	bits := func(b *types.Basic) (int, bool) { // width, unsigned
+		switch b.Kind() {
+		case types.Int8:
+			return 8, false
+		case types.Int16:
+			return 16, false
+		case types.Int32:
+			return 32, false
+		case types.Int64, types.Int:
+			return 64, false
+		case types.Uint8:
+			return 8, true
+		case types.Uint16:
+			return 16, true
+		case types.Uint32:
+			return 32, true
+		case types.Uint64, types.Uint, types.Uintptr:
+			return 64, true
+		}
+		return 64, false
+	}
+	fw, fu := bits(fb)
+	tw, tu := bits(tb)
+	switch {
+	case fu && tu && tw >= fw, !fu && !tu && tw >= fw:
+		return ""
+	case fu && !tu && tw > fw:
+		return ""
+	}
+	return fb.Name() + "→" + tb.Name()
 }
 
 // arrayElems recovers the elements of a literal/variadic backing array: every
@@ -406,6 +457,10 @@ func (t *Term) write(sb *strings.Builder, depth int) {
 		sb.WriteString("[")
 		list(t.Args)
 		sb.WriteString("]")
+	case "conv":
+		sb.WriteString(t.Sym + "(")
+		w(t.Args[0])
+		sb.WriteString(")")
 	case "alloc":
 		sb.WriteString("alloc:" + t.Sym)
 	case "global", "func", "closure":
